@@ -35,16 +35,31 @@ Oracle = the statement, evaluated per execution (see ``judge``):
 Oracle boundaries (accepted readings, documented where they are applied):
   * FD probe rule: a call of an original callable is a derivative-approximation probe iff a frame of
     ``gemseo/utils/derivatives/*`` is on the Python call stack (exact tag, no distance threshold).
+  * B2 counts the points that were not recorded before the execution: completing an entry left incomplete by an
+    earlier execution (objective missing where a constraint was stored, a gradient at a recorded point) creates no
+    entry and consumes no budget.  Derivative calls are reported under their own id (budget-points-with-jacobians).
   * ``use_database=False``: nothing is recorded, the evaluation counter never moves, so GEMSEO has no means to
     enforce N; B1 is trivially true and B2 is reported under its own invariant id (budget-points-no-database).
+    A run that has made 40 N + 100 real evaluations is aborted by the harness functions (``Runaway``).
+  * R1 covers what the statement covers: a TerminationCriterion that escapes, or an exception raised while the
+    result is built / delivered after the run (_get_result, _get_early_stopping_result, _post_run).  An error of
+    the wrapped library that no stop provoked (e.g. Scipy_MILP on a non-linear problem: AttributeError) is listed in
+    coverage.errors_of_the_wrapped_library_unrelated_to_a_stop, not reported as a violation.
+  * R3 is demanded of the runs stopped by GEMSEO ("... GEMSEO stopped the driver."); the LP / MILP solvers read the
+    coefficients, evaluate the starting point (base class) and the solution they report (outside the database, as a
+    post-processing): N + 1 points are accepted for them.
   * linear functions are replaced by GEMSEO's own normalized twin when normalize_design_space=True and no
     integer has to be rounded: the user's callable is then never called and only the database invariants apply.
   * a DOE started with reset_iteration_counters=False after another run, or stopped by max_time, may record
-    only a prefix of its samples (the statement's budget clause wins over the DOE clause).
-  * DOE under normalize_design_space=True: keys are unnormalize(normalize(sample)); equality is demanded up to
-    8 eps * max(|lb|, |ub|, ub - lb) (four roundings of the affine map and its inverse).
+    only a prefix of its samples (the statement's budget clause wins over the DOE clause), and the criterion fires at
+    the first store of an entry, so the last recorded entry may be partial.
+  * DOE on functions that take normalized inputs: keys are unnormalize(normalize(sample)); equality is demanded up
+    to 8 eps * max(|lb|, |ub|, ub - lb) (four roundings of the affine map and its inverse).
   * the number of samples a DOE generates for a requested n_samples is C14's business; here the budget of a DOE
-    is len(library.samples).
+    is len(library.samples).  PYDOE_CCDESIGN is run with face="faced" (the default star points lie outside the
+    design space by definition), OATDOE from a point of the unit cube.
+  * no time clause: a case of an isolated library (NLopt) that has not returned after HANG_TIMEOUT s of CPU is
+    killed and reported as a cap (coverage.caps), not as a violation.
 """
 from __future__ import annotations
 
@@ -571,7 +586,6 @@ def judge(obs, run, pname, info, history="single"):
     # a constraint was stored) creates no entry and consumes no budget; B2 counts the points not recorded before
     old_bytes = {np.asarray(k_, dtype=float).tobytes() for k_ in obs["old_keys"]}
     n_pts = len([p_ for p_ in obs["func_points"] if p_ not in old_bytes])
-    n_all = len(dict.fromkeys(obs["func_points"] + obs["jac_points"]))
     use_db = st["use_database"]
     serial = st.get("n_processes", 1) == 1
     if not obs["prefix_kept"]:
@@ -801,7 +815,12 @@ def check_case(case, tally):
             signal.alarm(0)
             os.setpgrp()  # the manager / worker processes of a parallel DOE die with this group
             t = Tally()
-            _check_case(case, t)
+            try:
+                _check_case(case, t)
+            except Exception:  # same treatment as in mc.core.pmap: never a silent pass
+                import traceback
+
+                t.violation({"invariant": "harness-error", "where": traceback.format_exc().strip().splitlines()[-1][:120]}, case, traceback.format_exc())
             payload = pickle.dumps(t)
             with os.fdopen(wfd, "wb") as f:  # length-prefixed: processes left behind by the case keep the pipe open
                 f.write(len(payload).to_bytes(8, "little") + payload)
